@@ -174,6 +174,40 @@ func main() {
 				emit("random", s)
 			}
 		}
+		// long statements (well over a hundred tokens: list constructs repeated), and at every position around the powers of
+		// two and near the end a deleted / inserted / replaced token: buffers, windows and counters of the token source
+		// and of the parser must not depend on the length of the statement
+		for _, txt := range longStatements() {
+			toks := gram.LexKinds(txt)
+			if len(toks) > 0 && toks[len(toks)-1] == gram.EOF {
+				toks = toks[:len(toks)-1]
+			}
+			emit("long", toks)
+			pos := map[int]bool{}
+			for _, c := range []int{32, 64, 128, 256, 512, len(toks) - 2} {
+				for d := -3; d <= 3; d++ {
+					if c+d >= 0 && c+d < len(toks) {
+						pos[c+d] = true
+					}
+				}
+			}
+			var ps []int
+			for j := range pos {
+				ps = append(ps, j)
+			}
+			sort.Ints(ps)
+			for _, j := range ps {
+				del := append(append([]int{}, toks[:j]...), toks[j+1:]...)
+				emit("long-delete", del)
+				for _, t := range []int{int(lexer.ItemBinding), int(lexer.ItemNode), int(lexer.ItemComma), toks[j]} {
+					ins := append(append(append([]int{}, toks[:j]...), t), toks[j:]...)
+					emit("long-insert", ins)
+				}
+				rep := append([]int{}, toks...)
+				rep[j] = 2 + rng.Intn(ntok-2)
+				emit("long-replace", rep)
+			}
+		}
 		if *maxlen > 0 {
 			// exhaustive over a sub-alphabet that can open and continue every statement type
 			alpha := []int{int(lexer.ItemCreate), int(lexer.ItemDrop), int(lexer.ItemGraph), int(lexer.ItemBinding),
@@ -278,7 +312,7 @@ func main() {
 		// long histories: many rejected statements on one parser, valid statements in between (state that accumulates
 		// slowly, e.g. a counter that is not restored on an error path)
 		{
-			longN := 1500
+			longN := 6000
 			if *n > 5000 {
 				longN = 20000
 			}
@@ -479,6 +513,42 @@ func main() {
 }
 
 // parseDump parses txt with p into a fresh Statement and renders outcome + meaning through exported accessors.
+// longStatements: valid statements of 130 to 700 tokens, one per list construct of the grammar.
+func longStatements() []string {
+	rep := func(n int, sep string, f func(i int) string) string {
+		var parts []string
+		for i := 0; i < n; i++ {
+			parts = append(parts, f(i))
+		}
+		return strings.Join(parts, sep)
+	}
+	v := func(p string) func(int) string { return func(i int) string { return fmt.Sprintf("?%s%d", p, i) } }
+	triple := func(i int) string { return fmt.Sprintf(`/u<n%d> "p%d"@[] /u<m%d>`, i, i, i) }
+	clause := func(i int) string { return fmt.Sprintf(`?s%d "p"@[] ?s%d`, i, i+1) }
+	return []string{
+		`create graph ` + rep(140, ", ", v("g")) + `;`,
+		`drop graph ` + rep(70, ", ", v("g")) + `;`,
+		`insert data into ` + rep(3, ", ", v("g")) + ` {` + rep(45, " . ", triple) + `};`,
+		`delete data from ?a {` + rep(70, " . ", triple) + `};`,
+		`select ` + rep(70, ", ", v("s")) + ` from ` + rep(5, ", ", v("g")) + ` where {` + rep(4, " . ", clause) + `};`,
+		`select ?s0 from ?a where {` + rep(50, " . ", clause) + `};`,
+		`select ?s0 from ?a where {?s0 "p"@[] ?s1 . ` + rep(30, " . ", func(i int) string { return "optional {" + clause(i) + "}" }) + `};`,
+		`select ?s0 from ?a where {?s0 "p"@[] ?s1} order by ` + rep(45, ", ", func(i int) string { return fmt.Sprintf("?s%d desc", i%2) }) + `;`,
+		`select ?s0 from ?a where {?s0 "p"@[] ?s1} group by ` + rep(70, ", ", func(i int) string { return fmt.Sprintf("?s%d", i%2) }) + `;`,
+		`select ?s0 from ?a where {?s0 "p"@[] ?s1} having ` + rep(40, " and ", func(i int) string { return "(?s0 = ?s1)" }) + `;`,
+		`select ?s0 from ?a where {?s0 "p"@[] ?s1} having ` + strings.Repeat("(", 60) + `?s0 = ?s1` + strings.Repeat(")", 60) + `;`,
+		`select ?s0 from ?a where {?s0 "p"@[] ?s1} having ` + strings.Repeat("not ", 130) + `?s0 = ?s1;`,
+		`construct {` + rep(12, " . ", func(i int) string {
+			return fmt.Sprintf(`?s%d "k"@[] ?s%d ; "a"@[] ?s0 ; "b"@[] ?s1`, i%2, (i+1)%2)
+		}) + `} into ?b from ?a where {?s0 "p"@[] ?s1};`,
+		`deconstruct {` + rep(45, " . ", func(i int) string { return fmt.Sprintf(`?s%d "k"@[] ?s%d`, i%2, (i+1)%2) }) + `} in ?b from ?a where {?s0 "p"@[] ?s1};`,
+		`select ?s0 from ?a where {` + rep(20, " . ", func(i int) string {
+			return fmt.Sprintf(`/u<a> as ?a%d type ?t%d id ?i%d "p"@[?w%d] as ?p%d id ?q%d at ?x%d ?o%d as ?b%d type ?c%d id ?d%d`, i, i, i, i, i, i, i, i, i, i, i)
+		}) + `};`,
+		`create graph ` + rep(700, ", ", v("g")) + `;`,
+	}
+}
+
 func parseDump(p *grammar.Parser, txt string) (out string) {
 	defer func() {
 		if r := recover(); r != nil {
